@@ -183,7 +183,7 @@ class Taint:
 
   def cls(self, act, prev) -> str:
     name = act[0]
-    if name in ('Add', 'CloseSeq', 'Init'):
+    if name in ('Add', 'AddBad', 'CloseSeq', 'Init'):
       return self.cur or 'any'
     fs, p = act[1], act[2]
     gdoc = store_reg(prev['gdoc'], fs, p)
@@ -236,7 +236,7 @@ def replay_store(chk, beh, vals_ids, rng, tag, hits, cfg) -> None:
         hits[act[0] + ':' + step.state['out']['k']] = hits.get(act[0] + ':' + step.state['out']['k'], 0) + 1
         chk.evaluations += 1
       except store.StoreDivergence as d:
-        fs = act[1] if act[0] not in ('Add', 'CloseSeq') else 'writer'
+        fs = act[1] if act[0] not in ('Add', 'AddBad', 'CloseSeq') else 'writer'
         known = chk.violation({'action': act[0], 'clause': d.clause, 'cls': cls},
                               {'part': 'store', 'cfg': cfg, 'step': k, 'act': act, 'fs': fs, 'what': d.detail,
                                'paths': {str(i): store.rel(i) for i in store.PATH_TABLE}, 'history': acts})
@@ -312,7 +312,7 @@ def check_store(chk, f) -> None:
     for n, beh in enumerate(behs):
       replay_store(chk, beh, [1, 2, 3], random.Random(chk.seed * 7919 + b * 100003 + n), f'{TAG}-{b}-{n}', hits, cfg)
   chk.notes['store_action_hits'] = dict(sorted(hits.items()))
-  for need in ('Save:ok', 'Save:not_a_directory', 'Save:is_a_directory', 'MkdirAt:ok', 'Load:is_a_directory', 'Load:ok', 'Load:not_found', 'Rm:ok', 'Exists:ok', 'OpenSeq:ok', 'Add:ok', 'CloseSeq:ok', 'ReadSeq:ok'):
+  for need in ('SaveBad:unserializable', 'AddBad:unserializable', 'Save:ok', 'Save:not_a_directory', 'Save:is_a_directory', 'MkdirAt:ok', 'Load:is_a_directory', 'Load:ok', 'Load:not_found', 'Rm:ok', 'Exists:ok', 'OpenSeq:ok', 'Add:ok', 'CloseSeq:ok', 'ReadSeq:ok'):
     chk.require(hits.get(need, 0) > 0, f'vacuous: store step {need} never replayed successfully')
 
 
